@@ -388,6 +388,15 @@ def build_air(src, dst, mode, pre=None):
         node.fragmentation = True
     hop, pipe = next_hop_pipe(src, dst)
     addr = H.net_pipe_address(hop, pipe)
+    if pre in ("failfirst", "failfirstfrag"):
+        # history: an earlier write to an absent child failed completely (nobody listens on that address)
+        ls = lvl_of(src)
+        kid = src | (1 << (3 * ls))
+        if kid == hop:
+            kid = src | (2 << (3 * ls))
+        w.advance(1 * MS)
+        if node.send(H.RF24NetworkHeader(kid, 2), bytes(range(60 if pre == "failfirstfrag" else 9))):
+            raise HarnessError("write to an absent node succeeded")
     L = d = None
     if mode != "failed":
         L = sim.ghost_listener(w, "L", [None, addr])
@@ -416,6 +425,8 @@ def air_case(pack, addr, case, seed):
     fid0 = (seed * 7919 + n * 257 + typ * 3 + (0xFFF0 if n % 5 == 0 else 0)) & 0xFFFF
     H.set_frame_id(fid0)
     hdr = H.RF24NetworkHeader(dst, typ)
+    if case.get("res") is not None:
+        hdr.reserved = case["res"]  # a header field like the others ("all 256 types and reserved values")
     res0 = hdr.reserved
     hid0 = hdr.frame_id & 0xFFFF
     shape = len_shape(n)
@@ -540,8 +551,11 @@ def w_air(item, rep):
     src, dst, mode, cases, seed = item
     mode, _, pre = mode.partition("+")
     pack, addr = build_air(src, dst, mode, pre or None)
-    for typ, n, api in cases:
+    for cs in cases:
+        typ, n, api = cs[:3]
         case = dict(src=src, dst=dst, type=typ, n=n, api=api, mode=mode)
+        if len(cs) > 3:
+            case["res"] = cs[3]
         if pre:
             case["pre"] = pre
         viol, outcome = air_case(pack, addr, case, seed)
@@ -590,6 +604,17 @@ def air_items(tier, seed):
         cases = [(1, n, "send" if n % 2 else "write") for n in lens]
         for i in range(0, len(cases), 49):
             items.append((src, dst, "sent+toggle", cases[i:i + 49], seed))
+    # every value of the caller's reserved byte (single frames carry it as given, fragments overwrite it)
+    for src, dst in ((0o1, 0), (0o1, 0o2)):
+        cases = [(typ, n, "send" if (res + n) % 2 else "write", res) for res in range(256) for typ, n in ((1, 0), (1, 5), (127, 24), (65, 25), (1, 49))]
+        for i in range(0, len(cases), 160):
+            items.append((src, dst, "sent", cases[i:i + 160], seed))
+    # after an earlier write (single frame / first fragment of a longer message) to an absent node failed completely
+    for src, dst in ((0o1, 0), (0o1, 0o2), (0, 0o3), (0o23, 0o4123)):
+        for pre in ("failfirst", "failfirstfrag"):
+            cases = [(1 if n % 3 else 127, n, "send" if n % 2 else "write") for n in ((0, 1, 24, 25, 49, 144) if tier == "quick" else lens)]
+            items.append((src, dst, "sent+" + pre, cases, seed))
+            items.append((src, dst, "partial1+" + pre, [(1, 49, "send"), (127, 72, "write")], seed))
     # nobody answers / the next hop stops answering after k fragments
     for i in range(0, 145, 8):
         items.append((0o1, 0o11, "failed", [(65 if n % 2 else 1, n, "send" if n % 3 else "write") for n in lens[i:i + 8]], seed))
